@@ -25,11 +25,16 @@ class Delta:
         self.obj = obj
         self.version = 0
         self.problems: list[tuple[ast.AST, str]] = []
+        # local names bound to a collection of the tracked object (as it was
+        # at that version): previous = obj.children_shard_lists
+        self.alias: dict[str, str] = {}
 
     def is_obj(self, e: ast.AST) -> bool:
         return ast.unparse(e) == self.obj
 
     def coll_term(self, e: ast.AST) -> str:
+        if isinstance(e, ast.Name) and e.id in self.alias:
+            return self.alias[e.id]
         t = ast.unparse(e)
         if t.startswith(self.obj + "."):
             return f"sum({t}@{self.version})"
@@ -54,6 +59,19 @@ class Delta:
                         v.value, ast.Name):
                 sign = 1 if isinstance(s.op, ast.Add) else -1
                 return Counter({f"n({v.value.id})": sign})
+            # obj.n -= sum(x.n for x in COLL)
+            if isinstance(s.op, (ast.Add, ast.Sub)) and isinstance(
+                    v, ast.Call) and isinstance(v.func, ast.Name) and \
+                    v.func.id == "sum" and len(v.args) == 1 and isinstance(
+                        v.args[0], (ast.GeneratorExp, ast.ListComp)) and \
+                    len(v.args[0].generators) == 1:
+                g = v.args[0].generators[0]
+                elt = v.args[0].elt
+                if not g.ifs and isinstance(elt, ast.Attribute) and \
+                        elt.attr == N and dotted(elt.value) == dotted(g.target) \
+                        and isinstance(g.target, ast.Name):
+                    sign = 1 if isinstance(s.op, ast.Add) else -1
+                    return Counter({self.coll_term(g.iter): sign})
             self.problems.append((s, "unanalysed accounting write"))
             return TOP
         if isinstance(s, (ast.Assign, ast.AnnAssign)):
@@ -71,6 +89,13 @@ class Delta:
                             return Counter({term: 1})
                         self.problems.append((s, "collection rebound"))
                         return TOP
+            for t in tgts:
+                if isinstance(t, ast.Name):
+                    self.alias.pop(t.id, None)
+                    v = s.value
+                    if isinstance(v, ast.Attribute) and v.attr in COLLS and \
+                            self.is_obj(v.value):
+                        self.alias[t.id] = self.coll_term(v)
             # any call in the value that mutates the tracked object?
             return self.expr_effect(s.value, loop_var) if s.value is not None \
                 else Counter()
@@ -141,6 +166,13 @@ class Delta:
         for c in ast.walk(e):
             if isinstance(c, ast.Call) and isinstance(c.func, ast.Attribute):
                 recv = c.func.value
+                if isinstance(recv, ast.Name) and recv.id in self.alias and \
+                        c.func.attr in ("append", "extend", "insert", "pop",
+                                        "remove", "clear", "sort", "reverse"):
+                    self.problems.append(
+                        (c, f"mutation of the tracked collection through its "
+                         f"alias `{recv.id}`"))
+                    return TOP
                 if isinstance(recv, ast.Attribute) and recv.attr in COLLS and \
                         self.is_obj(recv.value):
                     if c.func.attr == "append" and len(c.args) == 1 and \
